@@ -30,6 +30,16 @@ CLAIMS = {
         text="Serialization is part of the Registry machine: a payload is the tree by value with ids, Deser is the fold lookup-or-create-and-force-id. TLC checks RoundTrip / RegExact over every interleaving of construct, twin construct, drop, drop-all, detach_self between Ser and Deser (3 slots exhaustive, 4 slots depth-bounded, both digest modes); every transition ending in a deserialization is replayed in dict, JSON, MessagePack and YAML. Recorded random histories over eleven classes (one with every representable property kind) and ten origins of every kind are validated step by step by Trace_Registry.tla, and payloads (incl. index-based sources) are read back in a fresh interpreter whose alpha is validated by the same trace spec.",
         note="Trusted: TLC, orjson / msgpack / PyYAML / mashumaro for values inside the stated representable kinds (pools avoid NaN, lone surrogates, > 64-bit ints).",
         design="4.1, 6 C04"),
+    "C06": dict(
+        technique="TLA+ oracle (TreeQ.tla: parent info, ancestors, depth, relative depth, first ancestor of type, path) + TLC tree enumeration replayed into pyoak.tree.Tree + TLC trace validation",
+        text="The upward queries are defined in TLA+ from the downward structure (module TreeQ over Heap); TLC checks their mutual consistency (depth = chain length, chain ends at the root, the stored position really holds the node, paths injective) on every tree of <= N objects without repeated objects and exports, per node and per ordered pair, the expected answers incl. ValueError / KeyError outcomes; the driver compares Tree's answers, follows every get_xpath spelling with an independent walker, and probes outside nodes and content-identical foreign twins. Recorded queries on random trees up to 40 nodes are validated by Trace_Tree.tla.",
+        note="Trusted: TLC, zoo renderer. Precondition as stated: all nodes registered, no object twice.",
+        design="6 C06"),
+    "C07": dict(
+        technique="TLA+ oracle with two formulations of the xpath semantics (TreeQ.tla FindAll top-down, Match bottom-up; TLC checks Agree) + TLC enumeration of trees x paths replayed + TLC trace validation",
+        text="The documented path semantics is written twice in TLA+ (top-down search, bottom-up match) and TLC checks the two agree on every tree and path tried; every tree of <= N objects x all 1-step paths, all / sampled 2-step and sampled 3-step paths is exported with the expected result set and replayed through three text spellings against ASTXpath.findall (duplicate-free, as a set), find, match for every node with root and Tree arguments, and the node.find / node.findall front-ends. Random trees with tuples up to 13 and random 1-4 step paths with indices up to 12 are recorded and validated by Trace_Tree.tla.",
+        note="Trusted: TLC (incl. Randomization!RandomSubset for the path samples), zoo renderer, the xpath text renderer. The order in which findall yields is not part of the property and not compared; trees with one object at two positions are excluded.",
+        design="6 C07"),
     "C10": dict(
         technique="TLA+ action properties (Immutable, MembershipFrame, FailFrame) on Registry.tla + Observe actions replayed with per-step fingerprints of every live node",
         text="In the Registry machine no action changes the record of a surviving slot (Immutable) and registry membership changes only in detach / detach_self / replace on the receiver's subtree (MembershipFrame); Observe actions stand for every read-only operation kind (traversals, Tree queries, xpath, patterns, visitors, transformers, comparison, hashing, rich printing, accessors, (de)serialization, setattr / delattr on every field) and are UNCHANGED. TLC exports every transition; the driver fingerprints every live node before each call and compares after it, and compares the whole abstract state with the spec's. Recorded histories are checked the same way at every step.",
